@@ -157,15 +157,30 @@ pub fn gen_plain(dna: &mut Dna, size_weights: &[u32; 4]) -> Vec<u8> {
     gen_plain_sized(dna, target)
 }
 
+pub const FLAVOUR_NAMES: [&str; 9] =
+    ["all-kinds", "text-like", "incompressible", "runs", "tiny-alphabet", "mixed-binary", "archive-like", "regime-change", "steep-statistics"];
+
 pub fn gen_plain_sized(dna: &mut Dna, target: usize) -> Vec<u8> {
+    gen_plain_sized_labeled(dna, target).0
+}
+
+/// the plaintext and the name of its flavour (chosen from the DNA before anything else)
+pub fn gen_plain_sized_labeled(dna: &mut Dna, target: usize) -> (Vec<u8>, &'static str) {
+    let flavour = dna.weighted(&[25, 21, 13, 8, 8, 9, 8, 8, 5]);
+    (gen_plain_flavour(dna, target, flavour), FLAVOUR_NAMES[flavour])
+}
+
+fn gen_plain_flavour(dna: &mut Dna, target: usize, flavour: usize) -> Vec<u8> {
     let mut out = Vec::with_capacity(target);
     // flavour: which segment kinds are allowed; 0 -> all
-    let flavour = dna.weighted(&[25, 21, 13, 8, 8, 9, 8, 8]);
     if flavour == 6 {
         return gen_archive_like(dna, target);
     }
     if flavour == 7 {
         return gen_regime_change(dna, target);
+    }
+    if flavour == 8 {
+        return gen_steep_statistics(dna, target);
     }
     let kinds: &[usize] = match flavour {
         0 => &[0, 1, 2, 3, 4, 5, 6, 7],
@@ -264,5 +279,124 @@ fn gen_regime_change(dna: &mut Dna, target: usize) -> Vec<u8> {
         append_segment(&mut out, target, k, &mut mix);
     }
     out.truncate(target);
+    out
+}
+
+/// "steep statistics": units whose byte frequencies follow a Fibonacci-like (or geometric)
+/// series, the distributions for which an optimal prefix code is as deep as it can be for the
+/// number of symbols seen (a depth-d tree needs only about 1.62^d symbols). Length-limited code
+/// construction (15 bits for literals, 7 for the code-length alphabet) only does real work here.
+/// Units are either as large as the series allows or exactly one zlib block long (2^k - 1
+/// symbols for memLevel 5..9), the rest of the unit being one dominant byte.
+fn gen_steep_statistics(dna: &mut Dna, target: usize) -> Vec<u8> {
+    let mut out = Vec::with_capacity(target);
+    let mut mix = Mix::new(dna.u64());
+    if target == 0 {
+        return out;
+    }
+    let series = dna.weighted(&[70, 10, 20]); // 1,2,3,5.. | 1,1,2,3.. | 1,2,4,8..
+    let shuffled = dna.chance(80);
+    let block_aligned = dna.chance(45);
+    let scale = if dna.chance(30) { dna.range(1, 3) } else { 1 };
+    let unit_len = if block_aligned {
+        let fits: Vec<usize> = [2047usize, 4095, 8191, 16383, 32767].iter().copied().filter(|&u| u <= target).collect();
+        if fits.is_empty() {
+            target
+        } else {
+            fits[dna.below(fits.len())]
+        }
+    } else {
+        target
+    };
+    let budget = if block_aligned { unit_len * 6 / 10 } else { unit_len };
+    let mut counts: Vec<usize> = if series == 1 { vec![1, 1] } else { vec![1, 2] };
+    let mut sum: usize = counts.iter().sum();
+    loop {
+        let n = counts.len();
+        let next = if series == 2 { counts[n - 1] * 2 } else { counts[n - 1] + counts[n - 2] };
+        if (sum + next) * scale > budget.max(4) || n >= 40 {
+            break;
+        }
+        counts.push(next);
+        sum += next;
+    }
+    if counts.len() > 6 && dna.chance(35) {
+        let drop = dna.range(1, 4.min(counts.len() - 4));
+        counts.truncate(counts.len() - drop);
+    }
+    // which byte values carry the series (rarest first)
+    let base = mix.u8();
+    let stride = [1u8, 3, 7, 17][mix.below(4)];
+    let dominant = base.wrapping_sub(stride);
+    while out.len() < target {
+        let start = out.len();
+        for (i, &c) in counts.iter().enumerate() {
+            let b = base.wrapping_add((i as u8).wrapping_mul(stride));
+            for _ in 0..c * scale {
+                out.push(b);
+            }
+        }
+        if block_aligned {
+            while out.len() - start < unit_len {
+                out.push(dominant);
+            }
+        }
+        if shuffled {
+            let n = out.len() - start;
+            for i in (1..n).rev() {
+                let j = mix.below(i + 1);
+                out.swap(start + i, start + j);
+            }
+        }
+    }
+    out.truncate(target);
+    out
+}
+
+/// Plaintext made of units that are exactly one zlib block long for the given memLevel
+/// ((1 << (memLevel + 6)) - 1 symbols when nothing is matched) and whose byte counts are an exact
+/// Fibonacci series (1, 2, 3, 5, ...) next to one dominant byte: with the end-of-block symbol the
+/// optimal code of such a block is a chain, one level per symbol, so blocks with more than 15
+/// different bytes need zlib's length limiting.
+pub fn gen_block_aligned_steep(dna: &mut Dna, mem_level: u32) -> Vec<u8> {
+    let unit_len = (1usize << (mem_level + 6)) - 1;
+    let mut mix = Mix::new(dna.u64());
+    let scale = if dna.chance(25) { dna.range(1, 3) } else { 1 };
+    let mut counts: Vec<usize> = vec![1, 2];
+    let mut sum = 3usize;
+    loop {
+        let n = counts.len();
+        let next = counts[n - 1] + counts[n - 2];
+        if (sum + next) * scale > unit_len * 55 / 100 || n >= 30 {
+            break;
+        }
+        counts.push(next);
+        sum += next;
+    }
+    if counts.len() > 8 && dna.chance(25) {
+        let drop = dna.range(1, 3);
+        counts.truncate(counts.len() - drop);
+    }
+    let units = dna.range(1, 6);
+    let base = mix.u8();
+    let stride = [1u8, 3, 7, 17][mix.below(4)];
+    let dominant = base.wrapping_sub(stride);
+    let mut out = Vec::with_capacity(units * unit_len);
+    for _ in 0..units {
+        let start = out.len();
+        for (i, &c) in counts.iter().enumerate() {
+            let b = base.wrapping_add((i as u8).wrapping_mul(stride));
+            for _ in 0..c * scale {
+                out.push(b);
+            }
+        }
+        while out.len() - start < unit_len {
+            out.push(dominant);
+        }
+        for i in (1..unit_len).rev() {
+            let j = mix.below(i + 1);
+            out.swap(start + i, start + j);
+        }
+    }
     out
 }
